@@ -1,5 +1,6 @@
 (** C26 — proofs about the torus and star models of Routing/Torus.v. *)
 From SGV Require Import Base.Tactics Routing.Torus.
+From Coq Require Import Sorted.
 Local Open Scope Z_scope.
 
 (* ------------------------------------------------------------------------------------------ arithmetic *)
@@ -263,7 +264,7 @@ Proof.
   - pose proof (Hlt O ltac:(lia)) as H0. simpl in H0.
     destruct (coord dp d0 cur =? coord dp d0 dst) eqn:E; [|lia]. simpl.
     rewrite (IH k (S j0) (dp * d0) cur dst) by (try nia; try lia; try assumption; intros i Hi; apply (Hlt (S i)); lia).
-    destruct (stride r k) as [sdp dj]; simpl. replace (S j0 + k)%nat with (j0 + S k)%nat by lia.
+    destruct (stride r k) as [sdp dj]; simpl. replace (j0 + S k)%nat with (S (j0 + k)) by lia.
     now rewrite Z.mul_assoc.
 Qed.
 
@@ -282,12 +283,12 @@ Section Torus.
   Lemma C_nth k x : (k < length dims)%nat -> nth k (cs dims x) 0 = C k x.
   Proof. intros. unfold cs, C, DP, DD. rewrite nth_coords by (try lia; assumption). now rewrite Z.mul_1_l. Qed.
 
-  Lemma move_props up k cur : (k < length dims)%nat -> inrange dims cur ->
+  Lemma move_props up k cur : (k < length dims)%nat ->
     let nx := move up (DP k) (DD k) cur in
-    inrange dims nx /\ C k nx = succ_coord up (DD k) (C k cur) /\
+    nx / prodz dims = cur / prodz dims /\ C k nx = succ_coord up (DD k) (C k cur) /\
     (forall i, i <> k -> nth i (cs dims nx) 0 = nth i (cs dims cur) 0).
   Proof.
-    intros Hk Hin nx.
+    intros Hk nx.
     pose proof (stride_pos dims Hpos k) as [P1 P2]. fold (DP k) in P1. fold (DD k) in P2.
     assert (Es : stride dims k = (DP k, DD k)) by (unfold DP, DD; destruct (stride dims k); reflexivity).
     pose proof (move_coords dims Hpos k 1 cur (succ_coord up (DD k) (C k cur)) (DP k) (DD k) ltac:(lia) Hk Es
@@ -297,8 +298,8 @@ Section Torus.
       by (unfold nx, C; apply move_eq; assumption).
     rewrite <- En in M. destruct M as (A & B & _).
     repeat split.
-    - unfold inrange in *. now rewrite B.
-    - rewrite <- !C_nth by assumption. unfold cs. rewrite A. apply nth_upd_same. now rewrite coords_length.
+    - exact B.
+    - rewrite <- (C_nth k nx) by assumption. unfold cs. rewrite A. apply nth_upd_same. now rewrite coords_length.
     - intros i Hi. unfold cs. rewrite A. now apply nth_upd_other.
   Qed.
 
@@ -331,8 +332,9 @@ Section Torus.
       { intro E. rewrite E in Hd. destruct up; unfold dist, dist_up, dist_down in Hd;
           rewrite Z.sub_diag, Z.mod_0_l in Hd; lia. }
       assert (Hcd : cur <> dst) by (intro E; apply Hne; now rewrite E).
-      destruct (move_props up k cur Hk Hin) as (I1 & I2 & I3).
+      destruct (move_props up k cur Hk) as (I1' & I2 & I3).
       set (nx := move up (DP k) (DD k) cur) in *.
+      assert (I1 : inrange dims nx) by (unfold inrange in *; now rewrite I1').
       assert (Hst : step dims src cur dst = Some (mkhop k up cur nx)).
       { unfold step. rewrite (find_dim_spec dims Hpos k 0 1 cur dst) by
           (try lia; try assumption; rewrite ?(C_nth k) by assumption; fold (cs dims cur); fold (cs dims dst);
@@ -377,4 +379,358 @@ Section Torus.
         * rewrite E4 by assumption. apply Hlt. lia.
       + intros i Hi. rewrite E4 by lia. apply Hge. lia.
   Qed.
+
+  (* ---------------------------------------------------------------------------------- consequences *)
+
+  Fixpoint is_walk (cur : Z) (l : list thop) (fin : Z) : Prop :=
+    match l with
+    | [] => cur = fin
+    | h :: r => h_from h = cur /\ is_walk (h_to h) r fin
+    end.
+
+  Lemma is_walk_app a l1 b l2 c : is_walk a l1 b -> is_walk b l2 c -> is_walk a (l1 ++ l2) c.
+  Proof. revert a. induction l1 as [|h r IH]; simpl; intros a H1 H2; [now subst | destruct H1; split; auto]. Qed.
+
+  Lemma walk_is_walk n j up dp d : forall cur, is_walk cur (walk n j up dp d cur) (walk_end n up dp d cur).
+  Proof. induction n; simpl; intros; [reflexivity | split; [reflexivity | apply IHn]]. Qed.
+
+  (** a hop of dimension j moves one step along dimension j *)
+  Definition hop_ok (h : thop) : Prop :=
+    (h_dim h < length dims)%nat /\ h_to h = move (h_up h) (DP (h_dim h)) (DD (h_dim h)) (h_from h).
+
+  Lemma walk_hop_ok n j up : (j < length dims)%nat -> forall cur, Forall hop_ok (walk n j up (DP j) (DD j) cur).
+  Proof. intros Hj. induction n; simpl; intros; constructor; [split; simpl; auto | apply IHn]. Qed.
+
+  Lemma walk_all_walk : inrange dims dst -> forall n k cur, (k + n = length dims)%nat -> inrange dims cur ->
+    (forall i, (i < k)%nat -> nth i (cs dims cur) 0 = nth i (cs dims dst) 0) ->
+    (forall i, (k <= i)%nat -> nth i (cs dims cur) 0 = nth i (cs dims src) 0) ->
+    is_walk cur (spec_from n dims k src cur dst) dst.
+  Proof.
+    intros Hdst. induction n as [|n IH]; intros k cur Hkn Hin Hlt Hge.
+    - simpl. apply cs_inj; try assumption. apply nth_eq_all; [unfold cs; now rewrite !coords_length|].
+      intros i Hi. apply Hlt. unfold cs in Hi. rewrite coords_length in Hi. lia.
+    - assert (Hk : (k < length dims)%nat) by lia.
+      simpl. fold (DP k). fold (DD k). fold (C k src). fold (C k dst).
+      set (up := right_way (C k src) (C k dst) (DD k)).
+      set (kk := Z.to_nat (dist up (C k src) (C k dst) (DD k))).
+      assert (Hc : C k cur = C k src) by (rewrite <- !C_nth by assumption; apply Hge; lia).
+      assert (Hkk : kk = Z.to_nat (dist up (C k cur) (C k dst) (DD k))) by (now rewrite Hc).
+      destruct (walk_dim k up Hk eq_refl kk cur 0%nat Hin Hdst Hlt Hkk) as (_ & E2 & E3 & E4).
+      eapply is_walk_app; [apply walk_is_walk|]. apply IH; [lia | assumption | |].
+      + intros i Hi. destruct (Nat.eq_dec i k) as [->|Hik].
+        * rewrite !C_nth by assumption. exact E3.
+        * rewrite E4 by assumption. apply Hlt. lia.
+      + intros i Hi. rewrite E4 by lia. apply Hge. lia.
+  Qed.
+
+  Lemma spec_hop_ok : forall n k cur, (k + n = length dims)%nat -> Forall hop_ok (spec_from n dims k src cur dst).
+  Proof.
+    induction n as [|n IH]; intros k cur Hkn; simpl; [constructor|].
+    apply Forall_app. split; [apply walk_hop_ok; lia | apply IH; lia].
+  Qed.
+
+  Lemma walk_dims n j up dp d : forall cur, Forall (fun h => h_dim h = j /\ h_up h = up) (walk n j up dp d cur).
+  Proof. induction n; simpl; intros; constructor; [split; reflexivity | apply IHn]. Qed.
+
+  Lemma spec_dims_ge : forall n k cur, Forall (fun h => (k <= h_dim h)%nat) (spec_from n dims k src cur dst).
+  Proof.
+    induction n as [|n IH]; intros k cur; simpl; [constructor|].
+    apply Forall_app. split.
+    - eapply Forall_impl; [|apply walk_dims]. simpl. intros h [E _]. lia.
+    - eapply Forall_impl; [|apply IH]. simpl. intros h E. lia.
+  Qed.
+
+  Lemma spec_sorted : forall n k cur, StronglySorted le (map h_dim (spec_from n dims k src cur dst)).
+  Proof.
+    induction n as [|n IH]; intros k cur; simpl; [constructor|].
+    rewrite map_app.
+    set (dp := fst (stride dims k)). set (d := snd (stride dims k)).
+    set (up := right_way (coord dp d src) (coord dp d dst) d).
+    set (kk := Z.to_nat (dist up (coord dp d src) (coord dp d dst) d)).
+    set (rest := spec_from n dims (S k) src (walk_end kk up dp d cur) dst).
+    assert (Hrest : Forall (fun x => (k <= x)%nat) (map h_dim rest)).
+    { apply Forall_map. eapply Forall_impl; [|apply (spec_dims_ge n (S k))]. simpl. intros; lia. }
+    assert (Hs : StronglySorted le (map h_dim rest)) by apply IH.
+    clearbody rest. generalize cur. induction kk as [|m IHm]; intros c; simpl; [exact Hs|].
+    constructor; [apply IHm|]. apply Forall_app. split; [|exact Hrest].
+    apply Forall_map. eapply Forall_impl; [|apply walk_dims]. simpl. intros h [E _]. lia.
+  Qed.
+
+  Definition in_dim (j : nat) (h : thop) : bool := (h_dim h =? j)%nat.
+
+  Lemma filter_none (l : list thop) j : Forall (fun h => h_dim h <> j) l -> filter (in_dim j) l = [].
+  Proof.
+    induction 1 as [|h r H _ IH]; simpl; [reflexivity|]. unfold in_dim at 1.
+    destruct (h_dim h =? j)%nat eqn:E; [apply Nat.eqb_eq in E; contradiction | exact IH].
+  Qed.
+  Lemma filter_all (l : list thop) j : Forall (fun h => h_dim h = j) l -> filter (in_dim j) l = l.
+  Proof.
+    induction 1 as [|h r H _ IH]; simpl; [reflexivity|]. unfold in_dim at 1.
+    rewrite (proj2 (Nat.eqb_eq _ _) H). now rewrite IH.
+  Qed.
+
+  Lemma spec_filter : forall n k cur j, (k + n = length dims)%nat -> (k <= j < length dims)%nat ->
+    exists c, filter (in_dim j) (spec_from n dims k src cur dst) =
+      walk (Z.to_nat (dist (right_way (C j src) (C j dst) (DD j)) (C j src) (C j dst) (DD j))) j
+           (right_way (C j src) (C j dst) (DD j)) (DP j) (DD j) c.
+  Proof.
+    induction n as [|n IH]; intros k cur j Hkn Hj; [lia|].
+    simpl. rewrite filter_app. destruct (Nat.eq_dec j k) as [->|Hne].
+    - exists cur. fold (DP k). fold (DD k). fold (C k src). fold (C k dst).
+      rewrite filter_all by (eapply Forall_impl; [|apply walk_dims]; simpl; intros h [E _]; exact E).
+      rewrite filter_none; [apply app_nil_r|].
+      eapply Forall_impl; [|apply (spec_dims_ge n (S k))]. simpl. intros; lia.
+    - rewrite filter_none by (eapply Forall_impl; [|apply walk_dims]; simpl; intros h [E _]; lia).
+      simpl. apply IH; lia.
+  Qed.
+
+  Lemma nth_stride : forall l k, (k < length l)%nat -> snd (stride l k) = nth k l 1.
+  Proof.
+    induction l as [|d r IH]; intros k Hk; simpl in *; [lia|]. destruct k; [reflexivity|].
+    specialize (IH k ltac:(lia)). destruct (stride r k); simpl in *. exact IH.
+  Qed.
+
+  Lemma sumz_skipn : forall l k, (k < length l)%nat -> sumz (skipn k l) = nth k l 1 + sumz (skipn (S k) l).
+  Proof.
+    induction l as [|d r IH]; intros k Hk; [simpl in Hk; lia|]. destruct k; [reflexivity|].
+    change (skipn (S k) (d :: r)) with (skipn k r). change (nth (S k) (d :: r) 1) with (nth k r 1).
+    change (skipn (S (S k)) (d :: r)) with (skipn (S k) r). apply IH. simpl in Hk. lia.
+  Qed.
+
+  Lemma sumz_nonneg l : posl l -> 0 <= sumz l.
+  Proof. induction 1; simpl; lia. Qed.
+
+  Lemma spec_len : forall n k cur, (k + n = length dims)%nat ->
+    Z.of_nat (length (spec_from n dims k src cur dst)) <= sumz (skipn k dims).
+  Proof.
+    induction n as [|n IH]; intros k cur Hkn; simpl.
+    - apply sumz_nonneg. clear -Hpos. revert k. induction Hpos; intros [|k]; simpl; try constructor; auto.
+    - rewrite app_length, walk_length_eq. rewrite sumz_skipn by lia.
+      specialize (IH (S k) (walk_end
+         (Z.to_nat (dist (right_way (coord (fst (stride dims k)) (snd (stride dims k)) src)
+            (coord (fst (stride dims k)) (snd (stride dims k)) dst) (snd (stride dims k)))
+            (coord (fst (stride dims k)) (snd (stride dims k)) src)
+            (coord (fst (stride dims k)) (snd (stride dims k)) dst) (snd (stride dims k))))
+         (right_way (coord (fst (stride dims k)) (snd (stride dims k)) src)
+            (coord (fst (stride dims k)) (snd (stride dims k)) dst) (snd (stride dims k)))
+         (fst (stride dims k)) (snd (stride dims k)) cur) ltac:(lia)).
+      pose proof (stride_pos dims Hpos k) as [_ P2].
+      pose proof (dist_range (right_way (coord (fst (stride dims k)) (snd (stride dims k)) src)
+            (coord (fst (stride dims k)) (snd (stride dims k)) dst) (snd (stride dims k)))
+            (coord (fst (stride dims k)) (snd (stride dims k)) src)
+            (coord (fst (stride dims k)) (snd (stride dims k)) dst) (snd (stride dims k)) P2) as R.
+      rewrite <- (nth_stride dims k) by lia. lia.
+  Qed.
+
+  Hypothesis Hsrc : 0 <= src < prodz dims.
+  Hypothesis Hdst : 0 <= dst < prodz dims.
+
+  Theorem torus_hops_spec : torus_hops dims src dst = torus_spec dims src dst.
+  Proof.
+    unfold torus_hops, torus_spec.
+    pose proof (spec_len (length dims) 0 src ltac:(lia)) as L. simpl skipn in L.
+    set (sp := spec_from (length dims) dims 0 src src dst) in *.
+    replace (Z.to_nat (sumz dims)) with (length sp + (Z.to_nat (sumz dims) - length sp))%nat by lia.
+    apply walk_all; try (unfold inrange; apply Z.div_small; lia); try lia; try reflexivity.
+  Qed.
+
+  Theorem torus_is_walk : is_walk src (torus_hops dims src dst) dst /\ Forall hop_ok (torus_hops dims src dst).
+  Proof.
+    rewrite torus_hops_spec. unfold torus_spec. split.
+    - apply walk_all_walk; try (unfold inrange; apply Z.div_small; lia); try lia; try reflexivity.
+    - apply spec_hop_ok. lia.
+  Qed.
+
+  Theorem torus_dim_order : StronglySorted le (map h_dim (torus_hops dims src dst)).
+  Proof. rewrite torus_hops_spec. apply spec_sorted. Qed.
+
+  Theorem torus_hops_per_dim j : (j < length dims)%nat ->
+    let m := C j src in let t := C j dst in let d := DD j in
+    let hs := filter (in_dim j) (torus_hops dims src dst) in
+    Z.of_nat (length hs) = Z.min (dist_up m t d) (dist_down m t d) /\
+    Forall (fun h => h_up h = right_way m t d /\
+                     (if h_up h then dist_up m t d <= dist_down m t d else dist_down m t d <= dist_up m t d)) hs.
+  Proof.
+    intros Hj m t d hs. unfold hs. rewrite torus_hops_spec. unfold torus_spec.
+    destruct (spec_filter (length dims) 0 src j ltac:(lia) ltac:(lia)) as [c ->].
+    fold m t d. rewrite walk_length_eq.
+    pose proof (stride_pos dims Hpos j) as [_ P2]. fold (DD j) in P2. fold d in P2.
+    pose proof (coord_range (DP j) d src P2) as Rm. pose proof (coord_range (DP j) d dst P2) as Rt.
+    fold (C j src) in Rm. fold (C j dst) in Rt. fold m in Rm. fold t in Rt.
+    pose proof (dist_range (right_way m t d) m t d P2) as Rd.
+    destruct (Z.eq_dec m t) as [E|Hne].
+    - rewrite E. unfold dist, dist_up, dist_down. rewrite Z.sub_diag, Z.mod_0_l by lia.
+      destruct (right_way t t d); simpl; split; try constructor; lia.
+    - destruct (right_way_shorter m t d P2 Rm Rt Hne) as [S1 S2].
+      split.
+      + rewrite Z2Nat.id by lia. unfold dist. destruct (right_way m t d); [specialize (S1 eq_refl) | specialize (S2 eq_refl)]; lia.
+      + eapply Forall_impl; [|apply walk_dims]. simpl. intros h [_ ->]. split; [reflexivity|].
+        destruct (right_way m t d); auto.
+  Qed.
+
+  (** the hop uses the link created between its two ends by create_torus_links *)
+  Lemma hop_ok_neighbor h : hop_ok h ->
+    let dp := DP (h_dim h) in let d := DD (h_dim h) in
+    if h_up h then neighbor dp d (h_from h) = h_to h else neighbor dp d (h_to h) = h_from h.
+  Proof.
+    intros [Hj Hm] dp d.
+    pose proof (stride_pos dims Hpos (h_dim h)) as [P1 P2]. fold (DP (h_dim h)) in P1. fold (DD (h_dim h)) in P2.
+    fold dp in P1, Hm. fold d in P2, Hm.
+    destruct (h_up h) eqn:U; unfold move in Hm.
+    - rewrite Hm. unfold neighbor, move_up. destruct (coord dp d (h_from h) =? d - 1); ring.
+    - destruct (move_props false (h_dim h) (h_from h) Hj) as (_ & I2 & _).
+      fold dp d in I2. unfold move in I2. rewrite <- Hm in I2. unfold C in I2. fold dp d in I2.
+      unfold neighbor. rewrite I2. unfold succ_coord.
+      pose proof (coord_range dp d (h_from h) P2) as R.
+      rewrite (mod_cases d (coord dp d (h_from h) - 1)) by lia.
+      rewrite Hm. unfold move_down.
+      destruct (coord dp d (h_from h) =? 0) eqn:E0; destruct (coord dp d (h_from h) - 1 <? 0) eqn:E1;
+        destruct (coord dp d (h_from h) - 1 <? d) eqn:E2; try lia.
+      + destruct (coord dp d (h_from h) - 1 + d =? d - 1) eqn:E3; [ring | lia].
+      + destruct (coord dp d (h_from h) - 1 =? d - 1) eqn:E3; [lia | ring].
+  Qed.
 End Torus.
+
+(* ------------------------------------------------------------------------------------------ limiter / loopback *)
+
+Definition is_lim (l : tlink) : bool := match l with TLim _ => true | _ => false end.
+
+Lemma route_loopback dims lim src : torus_route dims true lim src src = [TLoop src].
+Proof. unfold torus_route. now rewrite Z.eqb_refl. Qed.
+
+Lemma route_no_limiter dims lb src dst : (src =? dst) && lb = false ->
+  torus_route dims lb false src dst = map hop_link (torus_hops dims src dst).
+Proof.
+  intros H. unfold torus_route. rewrite H, app_nil_r.
+  induction (torus_hops dims src dst) as [|h r IH]; simpl; [reflexivity | f_equal; exact IH].
+Qed.
+
+Lemma hop_link_not_lim h : is_lim (hop_link h) = false.
+Proof. unfold hop_link. destruct (h_up h); reflexivity. Qed.
+
+Lemma route_limiters dims lb src dst : (src =? dst) && lb = false ->
+  filter is_lim (torus_route dims lb true src dst) = map TLim (map h_from (torus_hops dims src dst) ++ [dst]) /\
+  filter (fun l => negb (is_lim l)) (torus_route dims lb true src dst) = torus_route dims lb false src dst.
+Proof.
+  intros H. unfold torus_route. rewrite H, app_nil_r, !filter_app. simpl.
+  induction (torus_hops dims src dst) as [|h r IH]; simpl; [split; reflexivity|].
+  destruct IH as [IH1 IH2]. rewrite !hop_link_not_lim. simpl. split; f_equal; assumption.
+Qed.
+
+(* ------------------------------------------------------------------------------------------ star *)
+
+Fixpoint dedup (seen l : list Z) : list Z :=
+  match l with
+  | [] => []
+  | x :: r => if existsb (Z.eqb x) seen then dedup seen r else x :: dedup (x :: seen) r
+  end.
+
+Lemma add_links_dedup : forall l seen acc, snd (add_links l seen acc) = acc ++ dedup seen l /\
+  (forall x, In x (fst (add_links l seen acc)) <-> In x seen \/ In x (dedup seen l)).
+Proof.
+  induction l as [|a r IH]; intros seen acc; simpl.
+  - rewrite app_nil_r. split; [reflexivity | intros; tauto].
+  - destruct (existsb (Z.eqb a) seen) eqn:E.
+    + apply IH.
+    + destruct (IH (a :: seen) (acc ++ [a])) as [A B]. split.
+      * rewrite A, <- app_assoc. reflexivity.
+      * intros x. rewrite B. simpl. tauto.
+Qed.
+
+Lemma existsb_In a l : existsb (Z.eqb a) l = true <-> In a l.
+Proof.
+  rewrite existsb_exists. split; [intros (x & I & E); apply Z.eqb_eq in E; now subst | intros I; exists a; split; [assumption | apply Z.eqb_refl]].
+Qed.
+
+Lemma dedup_spec : forall l seen,
+  NoDup (dedup seen l) /\ (forall x, In x (dedup seen l) <-> In x l /\ ~ In x seen).
+Proof.
+  induction l as [|a r IH]; intros seen; simpl; [split; [constructor | intros; tauto]|].
+  destruct (existsb (Z.eqb a) seen) eqn:E.
+  - destruct (IH seen) as [A B]. split; [exact A|]. intros x. rewrite B. apply existsb_In in E.
+    split; [tauto|]. intros [[->|I] N]; [contradiction | tauto].
+  - destruct (IH (a :: seen)) as [A B].
+    assert (Na : ~ In a seen) by (intro I; apply existsb_In in I; congruence).
+    split.
+    + constructor; [|exact A]. rewrite B. simpl. tauto.
+    + intros x. simpl. rewrite B. simpl. split.
+      * intros [<-|(I & N)]; [tauto | tauto].
+      * intros [[<-|I] N]; [tauto|]. destruct (Z.eq_dec a x); [tauto | right; tauto].
+Qed.
+
+Lemma dedup_nodup : forall l seen, NoDup l -> (forall x, In x l -> ~ In x seen) -> dedup seen l = l.
+Proof.
+  induction l as [|a r IH]; intros seen N D; simpl; [reflexivity|]. inv N.
+  destruct (existsb (Z.eqb a) seen) eqn:E.
+  - apply existsb_In in E. exfalso. apply (D a); simpl; auto.
+  - f_equal. apply IH; [assumption|]. intros x I [<-|S]; [contradiction | apply (D x); simpl; auto].
+Qed.
+
+Lemma NoDup_app_iff_local (a b : list Z) : NoDup a -> NoDup b -> (forall x, In x a -> In x b -> False) -> NoDup (a ++ b).
+Proof.
+  induction 1 as [|x a Hx Ha IH]; intros Nb D; simpl; [assumption|].
+  constructor.
+  - intro I. apply in_app_or in I. destruct I as [I|I]; [contradiction | apply (D x); simpl; auto].
+  - apply IH; [assumption|]. intros y I1 I2. apply (D y); simpl; auto.
+Qed.
+
+Lemma NoDup_app_parts (a b : list Z) : NoDup (a ++ b) -> NoDup a /\ NoDup b /\ (forall x, In x a -> In x b -> False).
+Proof.
+  induction a as [|x a IH]; simpl; intros N.
+  - repeat split; [constructor | assumption | intros x []].
+  - inv N. destruct (IH H2) as (Na & Nb & D). repeat split; [|assumption|].
+    + constructor; [|assumption]. intro I. apply H1. apply in_or_app. auto.
+    + intros y [<-|I] Ib; [apply H1; apply in_or_app; auto | apply (D y); assumption].
+Qed.
+
+Theorem star_route_spec same loop up down :
+  let r := star_route same loop up down in
+  let decl := if same then match loop with [] => up ++ down | _ => loop end else up ++ down in
+  NoDup r /\ (forall x, In x r <-> In x decl) /\ (NoDup decl -> r = decl).
+Proof.
+  intros r decl.
+  assert (G : forall u d, let '(seen, acc) := add_links u [] [] in
+            let r' := snd (add_links d seen acc) in
+            NoDup r' /\ (forall x, In x r' <-> In x (u ++ d)) /\ (NoDup (u ++ d) -> r' = u ++ d)).
+  { intros u d. destruct (add_links u [] []) as [seen acc] eqn:E.
+    destruct (add_links_dedup u [] []) as [A B]. rewrite E in A, B. simpl in A, B.
+    destruct (add_links_dedup d seen acc) as [A' _]. cbv zeta. rewrite A'. subst acc.
+    destruct (dedup_spec u []) as [N1 M1]. destruct (dedup_spec d seen) as [N2 M2].
+    repeat split.
+    - apply NoDup_app_iff_local; assumption || (intros x I1 I2; apply M2 in I2; destruct I2 as [_ NS]; apply NS; apply B; auto).
+    - intros I. apply in_app_or in I. apply in_or_app. destruct I as [I|I]; [left; now apply M1 in I | right; now apply M2 in I].
+    - intros I. apply in_app_or in I. apply in_or_app. destruct I as [I|I].
+      + left. apply M1. split; [assumption | tauto].
+      + destruct (in_dec Z.eq_dec x (dedup [] u)) as [Y|Nn]; [left; assumption|]. right. apply M2. split; [assumption|].
+        intro S. apply B in S. destruct S as [[]|S]; contradiction.
+    - intros ND. apply NoDup_app_parts in ND. destruct ND as (Nu & Nd & Dj).
+      rewrite (dedup_nodup u []) by (auto; intros x _ []). f_equal. apply dedup_nodup; [assumption|].
+      intros x Ix S. apply B in S. destruct S as [[]|S]. apply M1 in S. destruct S as [S _]. apply (Dj x); assumption. }
+  unfold r, decl, star_route.
+  assert (G' : let r' := (let '(seen, acc) := add_links up [] [] in snd (add_links down seen acc)) in
+               NoDup r' /\ (forall x, In x r' <-> In x (up ++ down)) /\ (NoDup (up ++ down) -> r' = up ++ down)).
+  { pose proof (G up down) as G0. destruct (add_links up [] []) as [seen acc]. exact G0. }
+  destruct same; [destruct loop as [|l0 lr]|]; [exact G' | | exact G'].
+  unfold r, decl, star_route. clear r decl. set (L := l0 :: lr).
+  destruct (add_links_dedup L [] []) as [A _]. rewrite A.
+  change ([] ++ dedup [] L) with (dedup [] L).
+  destruct (dedup_spec L []) as [N M]. repeat split; try assumption.
+  - intros I. now apply M in I.
+  - intros I. apply M. split; [assumption | tauto].
+  - intros ND. apply dedup_nodup; [assumption | intros x _ []].
+Qed.
+
+(** a hop changes the coordinate of its dimension by one step (mod the dimension size) and nothing else *)
+Lemma hop_ok_coords dims : posl dims -> forall h, hop_ok dims h ->
+  let dp := fst (stride dims (h_dim h)) in let d := snd (stride dims (h_dim h)) in
+  coords dims 1 (h_to h) =
+  upd (h_dim h) (succ_coord (h_up h) d (coord dp d (h_from h))) (coords dims 1 (h_from h)).
+Proof.
+  intros Hpos h [Hj Hm] dp d.
+  pose proof (stride_pos dims Hpos (h_dim h)) as [P1 P2]. fold dp in P1. fold d in P2.
+  assert (Es : stride dims (h_dim h) = (dp, d)) by (unfold dp, d; destruct (stride dims (h_dim h)); reflexivity).
+  pose proof (move_coords dims Hpos (h_dim h) 1 (h_from h) (succ_coord (h_up h) d (coord dp d (h_from h))) dp d
+                ltac:(lia) Hj Es (succ_range (h_up h) d _ P2)) as M.
+  cbv zeta in M. rewrite !Z.mul_1_l in M. destruct M as (A & _ & _).
+  rewrite <- A. f_equal. cbv zeta in Hm. fold dp d in Hm. rewrite Hm. apply move_eq; assumption.
+Qed.
